@@ -479,7 +479,7 @@ func (r *Router) formatPath(path string) string {
 
 	path = strings.TrimSpace(path)
 	// clear last slash: '/'
-	if !r.strictLastSlash && path[len(path)-1] == '/' {
+	if !r.strictLastSlash && path != "" && path[len(path)-1] == '/' {
 		path = strings.TrimRight(path, "/") // TODO alloc 1 times
 	}
 
